@@ -18,6 +18,31 @@
 //
 // Level fault_enumeration: for every generated case the crash point is
 // enumerated over the mutating storage/metadata steps of the first cycle.
+//
+// Execution shape (one simrt.Run per crash point, plus one without a crash):
+//
+//	boot -> cycle 0 (planned step failures; crash before mutating step k)
+//	     -> [restart after simulated downtime] -> cycle 1 (step failures, optional 2nd crash)
+//	     -> [restart] -> fault-free cycle -> exact visibility evaluation
+//
+// Oracle, from the property statement only:
+//
+//	A  (first half) after every mutation of a data file's final name in either
+//	   tier - i.e. at every instant a process death could freeze - the complete
+//	   content of every file is present in at least one tier
+//	   (C12.file-complete-in-no-tier.*). Query-level reading of the same half:
+//	   right after a crash+restart, and after a completed cycle in which steps
+//	   failed, a query still reads every row at least once and matches no
+//	   incomplete file (…transient.gone-after-next-clean-cycle when the next
+//	   fault-free cycle repairs it).
+//	B  (second half) after a fault-free cycle (migration and orphan
+//	   reconciliation have finished) the files the query layer would read
+//	   contain every row exactly once (C12.rows-invisible.*,
+//	   C12.rows-visible-N-times.*, C12.query-reads-incomplete-file.*); the
+//	   suffix says whether it heals when the tier look-up cache expires, with a
+//	   second fault-free cycle, or never.
+//
+// Nothing about which files ought to migrate is judged.
 package main
 
 import (
@@ -155,6 +180,15 @@ func genC12(r *simrt.Rand, tier string) any {
 			}
 			p.Faults = append(p.Faults, f)
 		}
+	}
+	// bias towards the orphan clean-up mechanism: a failed source delete leaves
+	// a hot orphan for ReconcileOrphanedFiles of the same cycle; a failed scan
+	// after a crash leaves the orphans of the crash to it
+	if r.Chance(25) {
+		p.Faults = append(p.Faults, Fault{Cycle: r.Intn(2), Class: "hot.remove.data", Nth: 1 + r.Intn(3), Err: "eacces"})
+	}
+	if r.Chance(15) {
+		p.Faults = append(p.Faults, Fault{Cycle: 1, Class: "hot.walk.dir", Nth: 1, Err: "eio"})
 	}
 	return p
 }
@@ -310,6 +344,7 @@ type world struct {
 	faultsHit int
 	lastMut   string
 	reconcile bool // the cycle has reached ReconcileOrphanedFiles
+	lookupErr bool // a failure was injected into UpdateTier's look-up SELECT
 
 	findings []finding
 }
@@ -517,6 +552,9 @@ func (w *world) install() {
 			w.faultsHit++
 			simrt.Count("fault."+class, 1)
 			simrt.Event("SQL err %s", class)
+			if class == "sql.q_lookup" {
+				w.lookupErr = true
+			}
 			return sqlite3.Error{Code: sqlite3.ErrBusy}
 		}
 		return nil
@@ -805,7 +843,13 @@ func expandGlob(pattern string) ([]string, error) {
 // evalB is the second half of the property: through the query layer's own
 // path construction every row is read exactly once. Returns findings instead
 // of recording them so that the caller can classify persistence.
-func (w *world) evalB() []finding {
+//
+// exact=false is the query-level reading of the first half ("complete
+// contents remain readable from at least one tier"): used right after a
+// crash-restart and after a completed cycle in which steps failed, where
+// duplicates are still tolerated; it reports only rows a query cannot read
+// (read 0 times, or an incomplete file matched by a pattern the query reads).
+func (w *world) evalB(exact bool) []finding {
 	var out []finding
 	add := func(rule, format string, args ...any) {
 		for _, f := range out {
@@ -863,11 +907,17 @@ func (w *world) evalB() []finding {
 			rows.Close()
 			cache := ""
 			if len(fresh) > 0 && strings.Join(fresh, ",") != strings.Join(tiersRead, ",") {
-				cache = ".stale-tier-lookup-cache"
+				cache = ".stale-tier-lookup-cache.no-statement-of-the-tier-update-failed"
+				if w.lookupErr {
+					cache = ".stale-tier-lookup-cache.after-failed-lookup-select-in-update-tier"
+				}
 			}
 			for i, f := range w.files {
 				if f.spec.DB != pr[0] || f.spec.Meas != pr[1] || count[i] == 1 {
 					continue
+				}
+				if !exact && (count[i] > 1 || cache != "") {
+					continue // duplicates tolerated here; a stale cache is reported by the exact evaluation
 				}
 				w.recheck(i)
 				meta := "none"
@@ -926,7 +976,7 @@ func exec(p *C12Plan, cfg simrt.Config, crashAt int, contents [][]byte) *execRes
 		if !w.boot() {
 			panic("HARNESS-ERROR node died during first boot")
 		}
-		if f := w.evalB(); len(f) > 0 {
+		if f := w.evalB(true); len(f) > 0 {
 			panic("HARNESS-ERROR initial state violates visibility: " + f[0].msg)
 		}
 		// cycle 0: planned step failures, enumerated crash point
@@ -935,6 +985,18 @@ func exec(p *C12Plan, cfg simrt.Config, crashAt int, contents [][]byte) *execRes
 		w.counting = false
 		ex.n0 = w.pt
 		w.checkAll("end-of-cycle-0")
+		// findings of the at-least-once evaluations; reported at the end under
+		// one rule id per state, unless the exact evaluation reports the same state
+		var pending []finding
+		readable := func(when string) {
+			for _, f := range w.evalB(false) {
+				simrt.Event("UNREADABLE %s %s", when, f.rule)
+				pending = append(pending, finding{f.rule, "[" + when + "] " + f.msg})
+			}
+		}
+		if alive {
+			readable("after a completed cycle in which steps failed")
+		}
 		// cycle 1: in the same process, or after a restart (with an optional second crash)
 		if !alive || p.RestartBetween {
 			down := time.Duration(0)
@@ -944,13 +1006,20 @@ func exec(p *C12Plan, cfg simrt.Config, crashAt int, contents [][]byte) *execRes
 			if !alive && p.Crash2 > 0 {
 				w.counting, w.pt, w.crashAt = true, 0, p.Crash2-1
 			}
+			crashed := !alive
 			alive = w.restart(down)
+			if alive && crashed {
+				readable("after crash and restart, before the next cycle")
+			}
 		}
 		if alive {
 			alive = w.cycle(1, false)
 		}
 		w.counting, w.crashAt = false, -1
 		w.checkAll("end-of-cycle-1")
+		if alive {
+			readable("after a completed cycle in which steps failed")
+		}
 		// a fault-free cycle (migration + orphan reconciliation finish)
 		if !alive || p.RestartBetween {
 			if !w.restart(0) {
@@ -961,7 +1030,16 @@ func exec(p *C12Plan, cfg simrt.Config, crashAt int, contents [][]byte) *execRes
 			panic("HARNESS-ERROR node died during the fault-free cycle")
 		}
 		w.checkAll("end-of-clean-cycle")
-		first := w.evalB()
+		first := w.evalB(true)
+		for _, pf := range pending {
+			dup := false
+			for _, f := range first {
+				dup = dup || f.rule == pf.rule
+			}
+			if !dup {
+				w.violate(pf.rule+".transient.gone-after-next-clean-cycle", "%s", pf.msg)
+			}
+		}
 		if len(first) > 0 {
 			// classification only: does it heal when the tier look-up cache
 			// expires, or with one more fault-free cycle?
@@ -974,11 +1052,11 @@ func exec(p *C12Plan, cfg simrt.Config, crashAt int, contents [][]byte) *execRes
 				}
 				return false
 			}
-			afterTTL := w.evalB()
+			afterTTL := w.evalB(true)
 			if !w.cycle(3, true) {
 				panic("HARNESS-ERROR node died during the second fault-free cycle")
 			}
-			second := w.evalB()
+			second := w.evalB(true)
 			for _, f := range first {
 				sfx := ".after-clean-cycle.until-cache-ttl-expires"
 				if has(afterTTL, f.rule) {
